@@ -262,6 +262,26 @@ fn java_handshake_settings<const H: usize>(version: i32) {
     assert!(sent_is(2, &addr, &[0x01, 0x01]));
 }
 
+/// A host name with a multi-byte character: the string length prefix is the
+/// UTF-8 byte length.
+#[cfg(kani)]
+#[kani::proof]
+#[kani::unwind(20)]
+#[kani::stub(alloc::fmt::format, stub_format)]
+fn c09_java_handshake_multibyte_host() {
+    let addr = any_addr_v4();
+    let settings = minecraft::RequestSettings {
+        hostname: "m\u{fc}".to_string(),
+        protocol_version: 4,
+    };
+    let r = minecraft::protocol::query_java(&addr, None, Some(settings));
+    assert!(kind_of(&r) == Some(K::PacketReceive));
+    core::mem::forget(r);
+    let p = addr.port().to_be_bytes();
+    assert!(sent_is(0, &addr, &[9, 0x00, 4, 3, b'm', 0xc3, 0xbc, p[0], p[1], 0x01]));
+    assert!(world().n_sends == 3);
+}
+
 #[cfg(kani)]
 #[kani::proof]
 #[kani::unwind(20)]
